@@ -83,6 +83,51 @@ void vf_guarded(void *p, size_t n, void *mutex, const char *name) { (void) p; (v
 void vf_guard_enable(int on) { (void) on; }
 long vf_locks_held(void) { return 0; }
 
+/* layout tables are exported by engine B (build dir, file layout.<type>.txt: "offset size kind") */
+static char (*lay_names)[64];
+static int load_layout(const char *type_name, long **offs, long **sizes, char **kinds)
+{
+	char path[1024]; const char *dir = getenv("VF_LAYOUT_DIR");
+	snprintf(path, sizeof path, "%s/layout.%s.txt", dir ? dir : ".", type_name);
+	FILE *fp = fopen(path, "r");
+	if (!fp) { printf("HARNESS-FAIL no layout table %s\n", path); exit(6); }
+	int cap = 1 << 16, n = 0; *offs = malloc(cap * sizeof(long)); *sizes = malloc(cap * sizeof(long)); *kinds = malloc(cap);
+	lay_names = malloc((size_t) cap * 64);
+	long o, s; char k; char nm[256];
+	while (n < cap && fscanf(fp, "%ld %ld %c %255s", &o, &s, &k, nm) == 4) { (*offs)[n] = o; (*sizes)[n] = s; (*kinds)[n] = k; strncpy(lay_names[n], nm, 63); lay_names[n][63] = 0; n++; }
+	fclose(fp);
+	return n;
+}
+static int has_prefix(const char *name, const char *prefixes)
+{
+	const char *q = prefixes;
+	while (q && *q)
+	{
+		const char *e = strchr(q, '|'); size_t len = e ? (size_t) (e - q) : strlen(q);
+		if (len && strncmp(name, q, len) == 0) return 1;
+		q = e ? e + 1 : 0;
+	}
+	return 0;
+}
+void vf_havoc_except(void *p, const char *type_name, const char *skip)
+{
+	long *o, *s; char *k; int n = load_layout(type_name, &o, &s, &k);
+	for (int i = 0; i < n; i++) if (k[i] != 'p' && !has_prefix(lay_names[i], skip)) memset((char *) p + o[i], 0x5A, (size_t) s[i]);
+}
+void vf_havoc(void *p, const char *type_name) { vf_havoc_except(p, type_name, ""); }
+void vf_same_scalars(const char *label, void *a, void *b, const char *type_name)
+{
+	long *o, *s; char *k; int n = load_layout(type_name, &o, &s, &k), bad = 0;
+	for (int i = 0; i < n; i++)
+	{
+		int diff;
+		if (k[i] == 'p') diff = ((*(void **) ((char *) a + o[i])) == 0) != ((*(void **) ((char *) b + o[i])) == 0);
+		else diff = memcmp((char *) a + o[i], (char *) b + o[i], (size_t) s[i]) != 0;
+		if (diff) { bad++; if (bad <= 20) printf("EVENT %s.differs_at_offset %ld %ld\n", label, o[i], s[i]); }
+	}
+	printf("CHECK %s %d\n", label, bad == 0); fflush(stdout);
+}
+
 #ifdef VF_ENTRY
 void VF_ENTRY(void);
 int main(void) { VF_ENTRY(); printf("DONE\n"); return 0; }
